@@ -24,6 +24,14 @@ CLAIMED = {
             "Every path from the construct parser's return to the entry's return passes an end-of-input test whose non-Eof edges report an error; the compiler maps every tree error into the list whose emptiness decides Ok.",
             "Leading tokens are covered by the construct parser's own error on an unexpected first token (not re-derived).",
             "must-pass-through over rustc MIR CFG with enumerated EOF-test idioms; provenance of DiagnosticList", False),
+    "C30": ("other",
+            "Reviewed-inventory equality for unsafe blocks/impls plus MIR rules for the reference-count protocol of Name (from_raw only wrapped in ManuallyDrop, exactly one +1 in clone and one -1 in drop on the Arc edge, tag provenance in the constructors), who-writes on the representation fields, who-reads for Eq/Ord/Hash, and impl-existence facts for copy-on-write; thorough tier adds compile-fail witnesses with compiling twins.",
+            "Trusted: std::sync::Arc, triomphe::Arc. Decides the protocol on all CFG paths; does not count leaks at run time.",
+            "unsafe inventory + count-lattice pairing + access-path provenance over rustc MIR/HIR; compile_fail witnesses", True),
+    "C31": ("other",
+            "The id handed out is the return value of one atomic fetch_add (a fact about all interleavings), bit structure of pack/tag/file_id with const-evaluated masks, inventory of statics (no static mut, only atomics/OnceLock caches whose initialisers cannot reach the counter), and the deep interior-mutability walk from Schema/ExecutableDocument; thorough tier adds Send/Sync and E0596 witnesses.",
+            "Assumes std atomics are atomic; uniqueness holds until the 63-bit counter wraps (reset edge), as the property states.",
+            "who-calls + provenance of a single atomic RMW, const evaluation, type-structure walk (rustc facts); compile_fail witnesses", True),
 }
 
 NOT_APPLICABLE = {
